@@ -160,7 +160,12 @@ class SSHForwarder(asyncio.BaseProtocol):
         if self._peer:
             self._peer.write_eof()
 
-            return not self._peer.was_eof_received()
+            if self._peer.was_eof_received():
+                # Both directions have now seen EOF, so close both sides
+                self.close()
+                return False
+
+            return True
         else:
             return True
 
